@@ -1,6 +1,6 @@
 P = {
     "gens": ["C01parse", "C02rules"],
-    "theorems": ["C01_roundtrip", "C01_reserialise_partial"],
+    "theorems": ["C01_roundtrip", "C01_reserialise"],
     "rule": "C01parse: bundles built from the Go structs (dtn/ipn/none endpoints, every admissible flag combination incl. "
             "reserved bits, CRC none/16/32 per block, fragments, all eight registered block types + unknown types, field "
             "values and payload sizes on both sides of 23/24, 255/256, 65535/65536, 2^32, 2^63; thorough: one > 1 MiB) "
@@ -17,8 +17,8 @@ P = {
     "level_text": "Round-trip theorem for every well-formed valid bundle, with exact consumption (so streams stay aligned), "
                   "by structural induction over blocks and byte lists - no size bound. The model (decoder, encoder, CheckValid) "
                   "is run against ParseBundle / WriteBundle on generated, mutated and hand-crafted inputs.",
-    "level_note": "C01_reserialise_partial: the implication 'accepted => fields in range (bundle_wf)' is validated per accepted "
-                  "case by the correspondence run, not yet proved; everything else is proved. Proof is about the model; tie to "
-                  "Go = differential check.",
+    "level_note": "Both sentences of the property are proved for the model (C01_reserialise rests on Proofs/DecodeWf.v: a "
+                  "successful decode puts every field in range and the canonical re-encoding of each component is no longer "
+                  "than the bytes it was read from). Proof is about the model; the tie to Go is the differential check.",
     "timeout_quick": 900,
 }
